@@ -153,7 +153,7 @@ def corpus():
 
 def _stream_case(rng):
     """an event stream as content under any status (the model has no stream content: judged by the wire rules alone; C17 covers the stream itself)"""
-    msgs = [rng.choice(['tick', 'a b', 'x' * 40, 'é', '0']) for _ in range(rng.choice([0, 1, 3]))]
+    msgs = [rng.choice(['tick', 'a b', 'x' * 40, 'é', '0', '', 'log line\n', 'two\nlines', '\n', 'a\n\n', 'x' * 300]) for _ in range(rng.choice([0, 1, 3]))]          # the chunk size is the number of bytes that follow, whatever the text (empty, ending in a line break, long)
     ops = [['stream', [hx(m) for m in msgs]]]
     if rng.random() < 0.5: ops.append(['xset', hx('X-After'), hx('1')])
     r = rng.random()
@@ -167,7 +167,7 @@ def _stream_case(rng):
 
 def generate(rng, tier):
     n = 4000 if tier == 'quick' else 120000
-    return [{'case': _case(rng)} for _ in range(n)] + [{'case': _stream_case(rng), 'stream': 'stream-content'} for _ in range(n // 140)]
+    return [{'case': _case(rng)} for _ in range(n)] + [{'case': _stream_case(rng), 'stream': 'stream-content'} for _ in range(n // 80)]
 
 
 CONTENT_OPS = ('text', 'html', 'json', 'payload', 'drop', 'stream', 'typed')
@@ -211,7 +211,7 @@ def spec_stream(case, out):
         data, rest = data + rest[:n], rest[n:]
         if rest[:2] != b'\r\n': return 'chunk not terminated by CRLF'
         rest = rest[2:]
-    want = b''.join(b'data: ' + unhx(m) + b'\n\n' for m in case['ops'][stream_final(case)][1])
+    want = b''.join(b''.join(b'data: ' + l + b'\n' for l in unhx(m).split(b'\n')) + b'\n' for m in case['ops'][stream_final(case)][1])          # one `data:` line per line of the message, then the blank line (the event-stream format; C17 decodes it with a full parser)
     if data != want: return f'stream body {data[:60]!r}, the messages are {want[:60]!r}'
     return None
 
